@@ -252,7 +252,7 @@ Proof.
     as (s' & Hw & Hmeta & Himg & Hfr & Hlen & Hgood'); try assumption.
   - unfold s0. cbn [dirs w_dirs]. apply nthN_updN_same. exact Hlt.
   - exists s'. split; [|splits; assumption].
-    unfold update_entry, with_dir_entry_mut, dir_entry, set_dir_entry. sred.
+    unfold update_entry, with_dir_entry_mut, with_dir_entry_mut_inner, dir_entry, set_dir_entry. sred.
     rewrite Hn. sred. rewrite Hn. fold s0. rewrite Hw. reflexivity.
 Qed.
 
@@ -481,6 +481,7 @@ Proof.
   - unfold write_data. sred.
     rewrite (stream_entry_ok s id e Hnth Ht). sred.
     assert (E1 : (d_len e <? off) = false) by lia. rewrite E1.
+    rewrite (both_check_false_small s (N.max (d_len e) (off + lenN buf))) by lia.
     assert (E2 : (d_start e =? END_OF_CHAIN) = false) by lia. rewrite E2.
     assert (E3 : (d_len e <? MINI_STREAM_CUTOFF) = true) by lia. rewrite E3.
     fold ln.
@@ -543,6 +544,7 @@ Proof.
     assert (E0 : (MAX_REGULAR_SECTOR * slen s <? new_len) = false).
     { pose proof (ChainProofs.slen_pos s). apply N.ltb_ge. unfold MAX_REGULAR_SECTOR, MINI_STREAM_CUTOFF in *. nia. }
     rewrite E0. sred.
+    rewrite (mask_check_false s new_len) by (apply small_fits_mask; lia). sred.
     assert (E2 : (d_start e =? END_OF_CHAIN) = false) by lia. rewrite E2.
     assert (E3 : (d_len e <? MINI_STREAM_CUTOFF) = true) by lia. rewrite E3.
     assert (E4 : (new_len =? 0) = false) by lia. rewrite E4.
